@@ -17,7 +17,6 @@ package message
 import (
 	"bytes"
 	"fmt"
-	"sync/atomic"
 )
 
 // UnsubscribeMessage is a UNSUBSCRIBE packet, sent by the Client to the Server, to unsubscribe from topics.
@@ -181,8 +180,7 @@ func (m *UnsubscribeMessage) Encode(dst []byte) (int, error) {
 	}
 
 	if m.PacketID() == 0 {
-		m.SetPacketID(uint16(atomic.AddUint64(&gPacketID, 1) & 0xffff))
-		//this.packetId = uint16(atomic.AddUint64(&gPacketId, 1) & 0xffff)
+		m.SetPacketID(nextPacketID())
 	}
 
 	n = copy(dst[total:], m.packetID)
